@@ -22,6 +22,13 @@ cp patches/broadcast.go "$TP/util/broadcast/broadcast.go"
 cp -r "$GC_SRC" "$TP/go-cache"; chmod -R u+w "$TP/go-cache"
 grep -q 'if ci > 0 {' "$TP/go-cache/cache.go" || { echo "setup: go-cache anchor not found" >&2; exit 2; }
 sed -i 's/if ci > 0 {/if ci > 0 \&\& false { \/\/ VERIF: janitor goroutine not started (never exits; expiry is checked lazily in Get)/' "$TP/go-cache/cache.go"
+# VERIF: entry of Get/Set/Add is a simulator scheduling point (shared state: a goroutine
+# between its Get and its Set may be overtaken)
+for fn in Set Add Get; do
+  grep -q "^func (c \*cache) $fn(" "$TP/go-cache/cache.go" || { echo "setup: go-cache $fn anchor not found" >&2; exit 2; }
+done
+sed -i 's/^func (c \*cache) Set(k string, x interface{}, d time.Duration) {$/&\n\tif SimYield != nil {\n\t\tSimYield("set")\n\t}/; s/^func (c \*cache) Add(k string, x interface{}, d time.Duration) error {$/&\n\tif SimYield != nil {\n\t\tSimYield("add")\n\t}/; s/^func (c \*cache) Get(k string) (interface{}, bool) {$/&\n\tif SimYield != nil {\n\t\tSimYield("get")\n\t}/' "$TP/go-cache/cache.go"
+printf 'package cache\n\n// SimYield, if set, is called at the entry of Get, Set and Add (simulation builds only).\nvar SimYield func(op string)\n' > "$TP/go-cache/simyield.go"
 [ -f "$TP/go-cache/go.mod" ] || printf 'module github.com/patrickmn/go-cache\n\ngo 1.12\n' > "$TP/go-cache/go.mod"
 # harness module: go.sum from the repository (same dependency graph)
 bin/gen_overlay.py >/dev/null
